@@ -2,6 +2,7 @@ package main
 
 import (
 	"fmt"
+	"strings"
 	"net/url"
 	"reflect"
 
@@ -26,7 +27,7 @@ func c03Types() []c03Type {
 	s := "abc"
 	in := c03Inner{A: "x"}
 	return []c03Type{
-		{"string", "", "abc", []string{"to=5~9", "eq=9", "phone", "int", "in=(x/y)", "email", "prefix=zz", "ints"}, true, true},
+		{"string", "", "abc", []string{"to=5~9", "eq=9", "phone", "int", "in=(x/y)", "email", "prefix=zz", "ints", "prefix='C:\\'", "suffix='\\'", "in=('x\\'/y)"}, true, true},
 		{"int", 0, 7, []string{"ge=9", "le=5", "eq=8", "in=(1/2)", "float", "lt=7"}, true, true},
 		{"int8", int8(0), int8(7), []string{"ge=9", "eq=8"}, true, true},
 		{"int16", int16(0), int16(7), []string{"gt=7"}, true, true},
@@ -136,7 +137,7 @@ func runC03(c *Ctx) error {
 						}
 						tag += ru
 					}
-					st := reflect.StructOf([]reflect.StructField{{Name: "F", Type: ft, Tag: reflect.StructTag(`valid:"` + tag + `"`)}})
+					st := reflect.StructOf([]reflect.StructField{{Name: "F", Type: ft, Tag: reflect.StructTag(`valid:"` + strings.ReplaceAll(tag, `\`, `\\`) + `"`)}})
 					sv := reflect.New(st).Elem()
 					if v != nil {
 						sv.Field(0).Set(reflect.ValueOf(v))
@@ -186,6 +187,30 @@ func runC03(c *Ctx) error {
 			term, desc := call.caseTerm([]string{"SExpect true " + galExps([]expE{{"C", "F", m}}), "SNoPanic"})
 			w.Add(term, desc, fmt.Sprintf("struct:empty-nonnil:%T", v))
 			w.Count("entry.struct")
+		}
+	}
+	// a per-call rule set adds required to a field whose tag carries value rules only: the field is zero, required fires
+	for _, ty := range types {
+		if len(ty.rules) == 0 || ty.name == "interface" {
+			continue
+		}
+		mTag, mReq, mOther := mark(), mark(), mark()
+		st := reflect.StructOf([]reflect.StructField{{Name: "F", Type: reflect.TypeOf(ty.nonzero), Tag: reflect.StructTag(`valid:"` + strings.ReplaceAll(ty.rules[0], `\`, `\\`) + `|` + mTag + `"`)}})
+		for _, isZero := range []bool{true, false} {
+			sv := reflect.New(st).Elem()
+			if !isZero {
+				sv.Field(0).Set(reflect.ValueOf(ty.nonzero))
+			}
+			over := "required|" + mReq + "," + ty.rules[len(ty.rules)-1] + "|" + mOther
+			call := &walkCall{Entry: "struct", Src: sv.Addr().Interface(), HasUnsc: true, Unscoped: map[string]string{"F": over}}
+			exps := []expE{{"C", "F", mReq}}
+			if !isZero {
+				exps = []expE{{"C", "F", mOther}}
+			}
+			term, desc := call.caseTerm([]string{"SExpect true " + galExps(exps), "SNoPanic"})
+			desc["field_type"] = ty.name
+			w.Add(term, desc, fmt.Sprintf("struct:override-adds-required:%s:zero%v", ty.name, isZero))
+			w.Count("entry.struct-override")
 		}
 	}
 	// a non-nil pointer is a supplied value even when it points at a zero scalar: required is satisfied
